@@ -172,6 +172,15 @@ func (s *SimSink) Write(p []byte) (int, error) {
 	return call.N, out.Err
 }
 
+// Committed returns the device content without the bytes of a Write call that
+// is still in progress (a caller sitting between two fragments of its write).
+func (s *SimSink) Committed() []byte {
+	if s.cur != nil && s.curOff <= len(s.Data) {
+		return s.Data[:s.curOff]
+	}
+	return s.Data
+}
+
 func (s *SimSink) Sync() error {
 	Yield(KSink, unsafe.Pointer(s))
 	if s.Dead {
